@@ -943,12 +943,19 @@ func undoSigner(c *types.ChangeLog, processor types.ChangeLogProcessor) error {
 // NewCodeLog records contract code setting
 func NewCodeLog(address common.Address, processor types.ChangeLogProcessor, code types.Code) *types.ChangeLog {
 	account := processor.GetAccount(address)
-	return &types.ChangeLog{
+	newLog := &types.ChangeLog{
 		LogType: CodeLog,
 		Address: account.GetAddress(),
 		Version: account.GetNextVersion(CodeLog),
 		NewVal:  code,
 	}
+	// Code can be written twice in one block: two CREATEs of the same caller in one transaction get
+	// the same address, and the account still counts as empty until the block is finalised. Keep the
+	// code that is overwritten (in memory only, like every OldVal) so that undo can put it back.
+	if oldCode, err := account.GetCode(); err == nil && len(oldCode) > 0 {
+		newLog.OldVal = oldCode
+	}
+	return newLog
 }
 
 func redoCode(c *types.ChangeLog, processor types.ChangeLogProcessor) error {
@@ -964,6 +971,10 @@ func redoCode(c *types.ChangeLog, processor types.ChangeLogProcessor) error {
 
 func undoCode(c *types.ChangeLog, processor types.ChangeLogProcessor) error {
 	accessor := processor.GetAccount(c.Address)
+	if oldCode, ok := c.OldVal.(types.Code); ok && len(oldCode) > 0 {
+		accessor.SetCode(oldCode)
+		return nil
+	}
 	accessor.SetCode(nil)
 	return nil
 }
